@@ -13,6 +13,16 @@ theorem options_coherent (a b : Options) (ha : wf (.dict a.group) = true) (hb : 
     (h : a.eq b = true) : pyEq a.hashVal b.hashVal = true :=
   mh_pyEq _ _ ha hb h
 
+theorem pyEq_tuple2 (a b c d : PyVal) : pyEq (.tuple [a, b]) (.tuple [c, d]) = (pyEq a c && pyEq b d) := by
+  simp [pyEq, PyVal.eqList]
+theorem pyEq_tuple3 (a b e c d f : PyVal) :
+    pyEq (.tuple [a, b, e]) (.tuple [c, d, f]) = (pyEq a c && pyEq b d && pyEq e f) := by
+  simp [pyEq, PyVal.eqList, Bool.and_assoc]
+theorem pyEq_tuple32 (a b e c d : PyVal) : pyEq (.tuple [a, b, e]) (.tuple [c, d]) = false := by
+  simp [pyEq, PyVal.eqList]
+theorem pyEq_tuple23 (a b c d f : PyVal) : pyEq (.tuple [a, b]) (.tuple [c, d, f]) = false := by
+  simp [pyEq, PyVal.eqList]
+
 theorem pyEq_str_refl (s : String) : pyEq (.str s) (.str s) = true := by simp [pyEq]
 theorem pyEq_obj_refl (n : Nat) : pyEq (.obj n) (.obj n) = true := by simp [pyEq]
 theorem pyEq_none_refl : pyEq .none .none = true := by simp [pyEq]
